@@ -87,6 +87,30 @@ func (e *SpecEnv) evalRef(ex Expr) string {
 	if sl, ok := ex.(*SliceE); ok && sl.Lo == nil && sl.Hi == nil {
 		ex = sl.X
 	}
+	if id, ok := ex.(*Ident); ok && e.fr != nil {
+		if _, shadowed := e.vars[id.Name]; !shadowed {
+			// a local that lives on the heap (array or struct whose address is taken): the object is the local itself
+			for _, b := range e.fr.fn.Blocks {
+				for _, in := range b.Instrs {
+					if a, ok := in.(*ssa.Alloc); ok && a.Comment == id.Name {
+						if _, isArr := a.Type().(*types.Pointer).Elem().Underlying().(*types.Array); isArr {
+							switch pv := e.fr.regs[a].(type) {
+							case Term:
+								return pv.S
+							case *Place:
+								if pv.ArrayPtr {
+									return pv.Ref
+								}
+								if s, ok := e.x.placeTerm(pv); ok {
+									return s
+								}
+							}
+						}
+					}
+				}
+			}
+		}
+	}
 	v := e.eval(ex)
 	switch t := v.(type) {
 	case Term:
@@ -238,7 +262,13 @@ func (e *SpecEnv) eval(ex Expr) Val {
 			}
 			return Term{"(forall (" + strings.Join(binds, " ") + ") " + inner + ")", boolT}
 		}
-		return Term{"(exists (" + strings.Join(binds, " ") + ") " + and(append(guards, body)...) + ")", boolT}
+		exBody := and(append(guards, body)...)
+		if pat := indexPattern(exBody, ch, n.Vars); pat != "" {
+			// an existential goal becomes a universal hypothesis when negated: give it the slice-read trigger
+			// so that pure E-matching can instantiate it with the witness of an assumed existential
+			return Term{"(exists (" + strings.Join(binds, " ") + ") (! " + exBody + " :pattern (" + pat + ")))", boolT}
+		}
+		return Term{"(exists (" + strings.Join(binds, " ") + ") " + exBody + ")", boolT}
 	case *LetE:
 		ch := e.child()
 		ch.vars[n.Name] = e.eval(n.Val)
